@@ -16,6 +16,9 @@ type Spec struct {
 	Name string
 	Args []*Spec
 	Trig *Spec
+	// From: set on the conjuncts produced by splitConj from the expansion of a predicate call: the (guarded /
+	// quantified) call they came from. Proving that call "folded" (as an atom) subsumes all of them.
+	From *Spec
 }
 
 func (s *Spec) String() string {
@@ -709,32 +712,78 @@ func substSpec(e *Spec, m map[string]*Spec) *Spec {
 	return n
 }
 
-func splitConj(e *Spec) []*Spec {
+func splitConj(e *Spec) []*Spec { return splitConjFrom(e, nil) }
+
+func splitConjFrom(e *Spec, from *Spec) []*Spec {
 	if e.Op == "call" && pureDefs != nil {
 		if pd, ok := pureDefs[e.Name]; ok && strings.TrimSpace(pd.Ret) == "bool" && len(pd.Params) == len(e.Args) && pd.Body.Op == "bin" && pd.Body.Name == "&&" {
 			m := map[string]*Spec{}
 			for i, p := range pd.Params {
 				m[p.Name] = e.Args[i]
 			}
-			return splitConj(substSpec(pd.Body, m))
+			if from == nil {
+				from = e
+			}
+			return splitConjFrom(substSpec(pd.Body, m), from)
 		}
 	}
 	if e.Op == "bin" && e.Name == "&&" {
-		return append(splitConj(e.Args[0]), splitConj(e.Args[1])...)
+		return append(splitConjFrom(e.Args[0], from), splitConjFrom(e.Args[1], from)...)
 	}
+	if from != nil {
+		// inside the expansion of a predicate: deeper structure keeps the outermost call as its origin
+		var out []*Spec
+		for _, r := range splitInner(e) {
+			c := *r
+			c.From = from
+			out = append(out, &c)
+		}
+		return out
+	}
+	return splitInner(e)
+}
+
+// splitInner splits below an implication / universal quantifier; origins of the parts are wrapped accordingly.
+func splitInner(e *Spec) []*Spec {
 	if e.Op == "bin" && e.Name == "==>" {
 		var out []*Spec
-		for _, r := range splitConj(e.Args[1]) {
-			out = append(out, &Spec{Op: "bin", Name: "==>", Args: []*Spec{e.Args[0], r}})
+		wrapped := map[*Spec]*Spec{}
+		for _, r := range splitConjFrom(e.Args[1], nil) {
+			n := &Spec{Op: "bin", Name: "==>", Args: []*Spec{e.Args[0], r}}
+			if r.From != nil {
+				w, ok := wrapped[r.From]
+				if !ok {
+					w = &Spec{Op: "bin", Name: "==>", Args: []*Spec{e.Args[0], r.From}}
+					wrapped[r.From] = w
+				}
+				n.From = w
+				rc := *r
+				rc.From = nil
+				n.Args[1] = &rc
+			}
+			out = append(out, n)
 		}
 		return out
 	}
 	if e.Op == "forall" {
-		bodies := splitConj(e.Args[2])
+		bodies := splitConjFrom(e.Args[2], nil)
 		if len(bodies) > 1 {
 			var out []*Spec
+			wrapped := map[*Spec]*Spec{}
 			for _, b := range bodies {
-				out = append(out, &Spec{Op: "forall", Name: e.Name, Args: []*Spec{e.Args[0], e.Args[1], b}, Trig: e.Trig})
+				n := &Spec{Op: "forall", Name: e.Name, Args: []*Spec{e.Args[0], e.Args[1], b}, Trig: e.Trig}
+				if b.From != nil {
+					w, ok := wrapped[b.From]
+					if !ok {
+						w = &Spec{Op: "forall", Name: e.Name, Args: []*Spec{e.Args[0], e.Args[1], b.From}, Trig: e.Trig}
+						wrapped[b.From] = w
+					}
+					n.From = w
+					bc := *b
+					bc.From = nil
+					n.Args[2] = &bc
+				}
+				out = append(out, n)
 			}
 			return out
 		}
